@@ -330,11 +330,11 @@ func c01Valid(p wParams) bool {
 func c01Configs(tier string) []wParams {
 	var out []wParams
 	dist := 2
-	trees := []string{"small3", "dir", "one:R:131073"}
+	trees := []string{"small3", "dir", "dirsame", "one:R:131073"}
 	segs := []string{"", "coalesce"}
 	if tier == "thorough" {
 		dist = 3
-		trees = []string{"small3", "unicode", "dir", "dir2", "samebase", "one:R:131073", "one:T:10241", "one:E:3079", "one:T:0", "many:40"}
+		trees = []string{"small3", "unicode", "dir", "dir2", "dirsame", "samebase", "one:R:131073", "one:T:10241", "one:E:3079", "one:T:0", "many:40"}
 		segs = []string{"", "coalesce", "byte"}
 	}
 	for _, v := range c01Vectors(dist) {
